@@ -383,9 +383,36 @@ func runProcessUnit(t *testing.T, profile string, nblocks int) {
 			vk.Case("process|undecodable", false, wire, nil)
 			return
 		}
+		// in the DPoS era peers deliver blocks together with a confirm
+		var confirm *payload.Confirm
+		confirmKind := "none"
+		switch rapid.IntRange(0, 5).Draw(t, "confirm") {
+		case 0: // generated proposal and votes
+			confirm = gen.NewFiller(t, nil).GenConfirm(4)
+			confirmKind = "generated"
+		case 1: // names this block, votes generated
+			confirm = gen.NewFiller(t, nil).GenConfirm(4)
+			confirm.Proposal.BlockHash = b.Hash()
+			confirmKind = "this-block"
+		}
+		if confirm != nil {
+			// through the wire, like the block
+			buf := new(bytes.Buffer)
+			if err := confirm.Serialize(buf); err != nil {
+				confirm, confirmKind = nil, "none"
+			} else {
+				c2 := &payload.Confirm{}
+				if err := c2.Deserialize(bytes.NewReader(buf.Bytes())); err != nil {
+					confirm, confirmKind = nil, "none"
+				} else {
+					confirm = c2
+					vk.Journal(append(append([]byte{'P'}, wire...), buf.Bytes()...))
+				}
+			}
+		}
 		stage := "refused"
 		if p, pv, frame := vk.Catch(func() {
-			in, orphan, err := tn.Process(&b)
+			in, orphan, err := tn.Chain.ProcessBlock(&b, confirm)
 			switch {
 			case err != nil:
 			case orphan:
@@ -397,14 +424,14 @@ func runProcessUnit(t *testing.T, profile string, nblocks int) {
 			}
 		}); p {
 			vk.Report(t, "C03:panic:"+frame, fmt.Sprintf("ProcessBlock panicked: %v", pv),
-				map[string]any{"block_wire": fmt.Sprintf("%x", wire), "profile": profile, "panic": fmt.Sprint(pv)})
+				map[string]any{"block_wire": fmt.Sprintf("%x", wire), "profile": profile, "confirm": confirmKind, "panic": fmt.Sprint(pv)})
 			stage = "panic"
 		}
-		if stage != "refused" {
+		if stage != "refused" || confirm != nil {
 			tn.Close()
 			tn = nil
 		}
-		vk.Case(fmt.Sprintf("process|%s|cbout=%d|%s", profile, m.CoinbaseOutputs, stage), true, wire, func() any {
+		vk.Case(fmt.Sprintf("process|%s|confirm=%s|%s", profile, confirmKind, stage), true, wire, func() any {
 			return map[string]any{"meta": m, "stage": stage, "profile": profile, "wire": vk.Hex(wire)}
 		})
 	})
